@@ -140,19 +140,20 @@ theorem C01_file_append_first : OntVerif.Gen.Recover.fileAppendFirst = true := b
 /-- **A store's batch reaches the database in one place only** (the model's "a batch commit is all-or-nothing" tied to the
 source of `core/store/leveldbstore/leveldb_store.go`, regenerated on every run): the only calls that modify the database
 are `db.Write` in `BatchCommit` and the un-batched `Put`/`Delete`; `BatchPut`/`BatchDelete` consist of a single statement,
-the append to `self.batch`, and nothing else touches the batch; the state store's `BatchPutRawKeyVal`/`BatchDeleteRawKey`/
+the append to the batch (`$` = receiver, `#i` = i-th parameter: names do not matter), and nothing else touches the batch; the state store's `BatchPutRawKeyVal`/`BatchDeleteRawKey`/
 `CommitTo`/`NewBatch` only forward. An early or partial flush of a pending batch (e.g. "write the batch out when it grows
 beyond N operations") breaks this theorem. Atomicity and durability of the single `db.Write(batch)` itself is goleveldb's
 contract (modelled). -/
 theorem C01_batch_atomic :
     OntVerif.Gen.BatchAtomic.dbWriteSites = [("BatchCommit", "Write"), ("Delete", "Delete"), ("Put", "Put")] ∧
     OntVerif.Gen.BatchAtomic.batchSites = [("BatchDelete", "Delete"), ("BatchPut", "Put")] ∧
-    OntVerif.Gen.BatchAtomic.body_BatchPut.length = 1 ∧ OntVerif.Gen.BatchAtomic.body_BatchDelete.length = 1 ∧
+    OntVerif.Gen.BatchAtomic.body_BatchPut = "$.batch.Put(#0,#1)" ∧
+    OntVerif.Gen.BatchAtomic.body_BatchDelete = "$.batch.Delete(#0)" ∧
     OntVerif.Gen.BatchAtomic.body_NewBatch.length = 1 ∧
-    OntVerif.Gen.BatchAtomic.state_BatchPutRawKeyVal = ["self.store.BatchPut(key, val)"] ∧
-    OntVerif.Gen.BatchAtomic.state_BatchDeleteRawKey = ["self.store.BatchDelete(key)"] ∧
-    OntVerif.Gen.BatchAtomic.state_CommitTo = ["return self.store.BatchCommit()"] ∧
-    OntVerif.Gen.BatchAtomic.state_NewBatch = ["self.store.NewBatch()"] := by
+    OntVerif.Gen.BatchAtomic.state_BatchPutRawKeyVal = "$.store.BatchPut(#0,#1)" ∧
+    OntVerif.Gen.BatchAtomic.state_BatchDeleteRawKey = "$.store.BatchDelete(#0)" ∧
+    OntVerif.Gen.BatchAtomic.state_CommitTo = "return $.store.BatchCommit()" ∧
+    OntVerif.Gen.BatchAtomic.state_NewBatch = "$.store.NewBatch()" := by
   decide
 
 /-- **C01 for the replay loop, commit order and recovery commits extracted from the source on this run.** -/
